@@ -38,6 +38,8 @@ def events(deep=False):
     temp = bytes.fromhex("0101008a72ffffff")                                     # PGN 130312: instance 1, source 0, 293.06 K
     ev["T"] = ("tcp", wire.ebyte_packet(wire.can_id(5, 130312, 1, 255), temp))
     ev["T_src7"] = ("tcp", wire.ebyte_packet(wire.can_id(5, 130312, 7, 255), temp))  # same payload, other source
+    # a whole message of the fast-packet stream handed over pre-assembled (Actisense), before / between / after its frames
+    ev["F_acti"] = ("acti", wire.actisense_line(3, 255, FAST_SRC, FAST_PGN, fast_payload(4)))
     ev["unmatched65285"] = ("tcp", wire.ebyte_packet(wire.can_id(6, 65285, 8, 255), bytes.fromhex("3b9f010203040506")))   # no definition matches: ignored
     ev["lowrance65285"] = ("tcp", wire.ebyte_packet(wire.can_id(6, 65285, 8, 255), bytes.fromhex("8c8808fe7f555555")))    # lowranceTemperature
     ev["unmatched126720_0"] = ("tcp", wire.ebyte_packet(wire.can_id(6, 126208, 8, 255), bytes.fromhex("40030902010203")))  # 126208: fast, no fallback, function code 9 matches nothing
@@ -155,7 +157,7 @@ def run_bfs(max_states, deep=False):
         fresh[pname] = [feed(d, e, a) for e, a in seq]
     enc = NMEA2000Encoder()
     enc_msg = clientkit.gnss_message()
-    STATELESS = ("A", "T", "T_src7", "unk", "oor", "lowrance65285", "unmatched65285")
+    STATELESS = ("A", "T", "T_src7", "unk", "oor", "lowrance65285", "unmatched65285", "F_acti")
     base_plain = {n: feed(NMEA2000Decoder(), *evs[n]) for n in STATELESS}
     base_pref = {n: feed(NMEA2000Decoder(preferred_units={PQ.TEMPERATURE: "C", PQ.ANGLE: "deg"}), *evs[n]) for n in STATELESS}
     fp0 = class_fingerprint()
@@ -313,7 +315,7 @@ def run(ctx):
         "traces_validated_against_impl": res.transitions * 2 + nprobes + cres.transitions,
         "evaluations": res.transitions + nprobes + n_cfg + cres.transitions, "distinct_nontrivial": res.nontrivial,
         "distinct_outcomes": 1 + len({v["kind"] for v in vios}),
-        "rule": "BFS states of (decoder X, decoder Y, decoder R that never sees inputs X rejected); every transition feeds one of 26 (thorough: 37) events to X, Y and P (another configuration) (and to R unless X rejected it) and runs 3 probes on a deep copy of X; "
+        "rule": "BFS states of (decoder X, decoder Y, decoder R that never sees inputs X rejected); every transition feeds one of 27 (thorough: 38) events to X, Y and P (another configuration) (and to R unless X rejected it) and runs 3 probes on a deep copy of X; "
                 "non-trivial = X holds at least one partly received fast-packet message",
         "samples": [{"history": h} for h in res.samples[:2]] or [{"history": []}],
         "probes_run": nprobes, "max_depth": res.max_depth, "configuration_checks": n_cfg,
